@@ -4,6 +4,7 @@ package shaping
 
 import (
 	"unicode"
+	"unicode/utf8"
 
 	"github.com/go-text/typesetting/di"
 	"github.com/go-text/typesetting/font"
@@ -220,21 +221,48 @@ func (seg *Segmenter) splitByBidi(text Input) {
 	if text.Direction.Progression() == di.TowardTopLeft {
 		def = bidi.RightToLeft
 	}
-	seg.bidiParagraph.SetString(string(text.Text[text.RunStart:text.RunEnd]), bidi.DefaultDirection(def))
+
+	// The bidi algorithm applies to one paragraph at a time : [bidi.Paragraph]
+	// stops at the first paragraph separator, so we iterate over the paragraphs.
+	str := string(text.Text[text.RunStart:text.RunEnd])
+	paragraphStart := text.RunStart // in runes
+	for len(str) != 0 {
+		n, _ := seg.bidiParagraph.SetString(str, bidi.DefaultDirection(def))
+		if n <= 0 || n > len(str) {
+			n = len(str)
+		}
+		paragraphEnd := paragraphStart + utf8.RuneCountInString(str[:n])
+		str = str[n:]
+
+		seg.splitParagraphByBidi(text, paragraphStart, paragraphEnd)
+
+		paragraphStart = paragraphEnd
+	}
+}
+
+// splitParagraphByBidi handles the paragraph text.Text[start:end],
+// previously loaded in seg.bidiParagraph
+func (seg *Segmenter) splitParagraphByBidi(text Input, start, end int) {
+	input := text
+	input.RunStart, input.RunEnd = start, end
+
 	out, err := seg.bidiParagraph.Order()
 	if err != nil || out.NumRuns() == 0 {
-		seg.output = append(seg.output, text)
+		seg.appendBidiRun(input)
 		return
 	}
 
-	input := text // start a rune 0 of the run
 	for i := 0; i < out.NumRuns(); i++ {
 		currentInput := input
 		run := out.Run(i)
 		dir := run.Direction()
 		_, endRune := run.Pos()
-		endRune += text.RunStart // shift by the input run position
+		endRune += start // shift by the paragraph position
 		currentInput.RunEnd = endRune + 1
+		// the last run returned by Order also covers the following paragraphs
+		if i == out.NumRuns()-1 || currentInput.RunEnd > end {
+			currentInput.RunEnd = end
+		}
 
 		// override the direction
 		if dir == bidi.RightToLeft {
@@ -243,9 +271,23 @@ func (seg *Segmenter) splitByBidi(text Input) {
 			currentInput.Direction.SetProgression(di.FromTopLeft)
 		}
 
-		seg.output = append(seg.output, currentInput)
+		if currentInput.RunStart < currentInput.RunEnd {
+			seg.appendBidiRun(currentInput)
+		}
 		input.RunStart = currentInput.RunEnd
 	}
+}
+
+// appendBidiRun adds the run to the output, merging it with the previous one
+// if it is contiguous and has the same direction (which happens across paragraphs)
+func (seg *Segmenter) appendBidiRun(run Input) {
+	if L := len(seg.output); L != 0 {
+		if last := &seg.output[L-1]; last.RunEnd == run.RunStart && last.Direction == run.Direction {
+			last.RunEnd = run.RunEnd
+			return
+		}
+	}
+	seg.output = append(seg.output, run)
 }
 
 // lookupDelimIndex binary searches in the list of the paired delimiters,
